@@ -5,7 +5,8 @@
                                 ORDERED list and the input-order gather explicit (`gatherIn`); the seeded-defect shape —
                                 gathering the values in the order of the incoming pairs — is `useInputOrder := false`
     Constant.eager_subs         (constant.py:71)        bookkeeping of `const_inputs`
-    MarkovProduct.eager_subs    (sum_product.py ~1019)  renaming in `step_names`, then `Subs(result, lazy)`
+    MarkovProduct.eager_subs    (sum_product.py ~1019)  renaming in `step_names`, then `Subs(result, lazy)`; HEAD's guard
+                                (`seqClash`, `MP.eagerSubsHead`) declines when that would not be simultaneous
     Scatter.eager_subs          (terms.py ~1295)        renaming of destination names (same local model as MarkovProduct
                                 with identity step names)
     Delta.eager_subs / Independent.eager_subs are stated over the shared `Term` (constructors `delta`, `independent`) in
@@ -159,6 +160,24 @@ def simEnv {V : Type} (σ : List (Name × MVal V)) (env : Name → V) : Name →
     non-Variable pair. -/
 def noSeqClash {V : Type} (σ : List (Name × MVal V)) : Prop :=
   ∀ k x, mlookup σ k = some (MVal.var x) → ∀ f, mlookup σ x ≠ some (MVal.val f)
+
+/-- HEAD's guard (49bc2e2 MarkovProduct, 1ad895c Scatter): `any(name in dict(lazy) for name in rename.values())`. -/
+def seqClash {V : Type} (σ : List (Name × MVal V)) : Bool :=
+  σ.any (fun p => match p.2 with
+    | MVal.var x => (match mlookup σ x with
+        | some (MVal.val _) => true
+        | _ => false)
+    | MVal.val _ => false)
+
+def hasRename {V : Type} (σ : List (Name × MVal V)) : Bool :=
+  σ.any (fun p => match p.2 with
+    | MVal.var _ => true
+    | MVal.val _ => false)
+
+/-- `MarkovProduct.eager_subs` / `Scatter.eager_subs` as on HEAD: decline (`return None`: the substitution stays a
+    lazy `Subs`) when there is nothing to rename or when renaming first would not be simultaneous. -/
+def MP.eagerSubsHead {V : Type} (m : MP V) (σ : List (Name × MVal V)) (env : Name → V) : Option V :=
+  if !hasRename σ || seqClash σ then none else some (m.eagerSubs σ env)
 
 /-! ### Term builders returned by Independent.eager_subs / Delta.eager_subs -/
 
